@@ -23,11 +23,13 @@ THEOREMS = [
     'C07.no_unknown_label_error', 'C07.no_unknown_label_error_structured',
     'C07.lower_scopes_clean', 'C07.no_label_lint', 'C07.no_label_lint_structured',
     'C07.lower_include_nonempty', 'C07.parseLines_include_nonempty', 'C07.schema_valid',
+    'C07.wellNested_iff', 'C07.parsed_well_formed', 'C07.parsed_well_formed_structured',
 ]
 ASSUMPTIONS = [
-    'the theorems are about the recursive SPEC lowering Lower.lowerProgram; that parse_script computes it is (a) the correspondence '
-    'streams of this check (implementation vs spec AND vs the line-at-a-time mirror parseLines) and (b) C01.parseLines_render '
-    '(mirror = spec for WellNested programs), which is a C01 theorem and is not re-proved here',
+    'the core theorems are about the recursive SPEC lowering Lower.lowerProgram; C07.parsed_well_formed transfers them to the '
+    'line-at-a-time mirror parseLines (label_defs stack, counter, function floor, re-targeting, hasContinue) through the imported theorem '
+    'C01.parseLines_render (mirror = spec for well-nested programs in C01 normal form: FidsInOrder, NoAdjacentIncludes); that parse_script '
+    'computes the same lists is the correspondence of this check (implementation vs spec AND vs mirror); text -> classified lines is C06/C10',
     'label names: `Name.gen kind n` renders as "__bareScript<Kind><n>" (BareModel/Syntax.lean); distinct (kind, n) give distinct '
     'strings and no user identifier without the reserved prefix renders like one - the JSON boundary (SyntaxJson) is covered by the '
     'correspondence comparison of the rendered names with the implementation strings, not by a theorem',
@@ -53,10 +55,11 @@ LEVEL_TEXT = ('Theorems for ALL structured programs (any nesting depth, any numb
               'depth <= 3 incl. the extended space and depth 4 exhaustively when the time budget allows - the evidence says which; each '
               'global / in a function / several functions) and random programs (depth <= 6): parse_script output vs spec vs mirror, plus direct oracles on the '
               'implementation output (validate_script, per-scope label/jump census, lint_script, execution).')
-LEVEL_NOTE = ('Trusted: Lean kernel; extract.py; harness (progen renderer, scope oracles). The theorems speak about the spec lowering; '
-              'mirror = spec is C01.parseLines_render (not part of C07) and is sampled here (mirror stream). WellNested is not needed by '
-              'any spec-level theorem (lowerS none .brk emits nothing) - it is what makes the parser accept the program. Lint theorems are '
-              'about the Lean lint model (C18).')
+LEVEL_NOTE = ('Trusted: Lean kernel; extract.py; harness (progen renderer, scope oracles). The core theorems speak about the spec lowering; '
+              'parsed_well_formed carries them to the line-at-a-time mirror via the imported C01.parseLines_render. WellNested is not needed '
+              'by any spec-level theorem (lowerS none .brk emits nothing) - it is what makes the parser accept the program and is a conclusion '
+              'of parsed_well_formed. Lint theorems are about the Lean lint model (C18 lemmas imported). Classification of text lines is '
+              'outside C07 (C06/C10).')
 
 RESERVED = '__bareScript'
 RE_LABEL_WARNING = re.compile(r'^(Unknown|Unused|Redefinition of)( global)? label ')
